@@ -89,3 +89,63 @@ package common
 //@   ensures [unique] otherVolNames(podSpec, volumeName, len(podSpec.Volumes) - 1)
 //@   ensures [no-growth] len(podSpec.Volumes) <= old(len(podSpec.Volumes)) + 1
 //@ end
+
+// ===== section owned by helper bplug (C11: what the binder's gpusharing plugin writes into the GPU-sharing ConfigMaps) =====
+// Store model: ghost gpusharingconfigmap.cmStored(k) (see pkg/binder/common/gpusharingconfigmap); the assumed contracts of
+// the controller-runtime client for ConfigMap objects are repeated in every package that talks to ConfigMaps.
+//@ define cmOfObj(o ref) *v1.ConfigMap = unbox(o, "*v1.ConfigMap")
+//@ define keyOfCM(o ref) string = gpusharingconfigmap.cmKey(cmOfObj(o).Namespace, cmOfObj(o).Name)
+//@ func PARKED.sigs.k8s.io/controller-runtime/pkg/client.Client.Get
+//@   props C11
+//@   requires obj != nil
+//@   modifies fields(cmOfObj(obj))
+//@   ensures result == nil && typeis(obj, "*v1.ConfigMap") ==> gpusharingconfigmap.cmStored(gpusharingconfigmap.cmKey(key.Namespace, key.Name)) != nil && cmOfObj(obj).Name == key.Name && cmOfObj(obj).Namespace == key.Namespace
+//@   ensures result == nil && typeis(obj, "*v1.ConfigMap") ==> cmOfObj(obj).Data == nil || fresh(cmOfObj(obj).Data)
+//@ end
+//@ func PARKED.sigs.k8s.io/controller-runtime/pkg/client.Client.Patch
+//@   props C11
+//@   requires obj != nil
+//@   modifies family(gpusharingconfigmap.cmStored(""))
+//@   ensures forall k string :: k != keyOfCM(obj) ==> gpusharingconfigmap.cmStored(k) == old(gpusharingconfigmap.cmStored(k))
+//@   ensures result == nil && typeis(obj, "*v1.ConfigMap") ==> gpusharingconfigmap.cmStored(keyOfCM(obj)) == cmOfObj(obj)
+//@   ensures !(result == nil && typeis(obj, "*v1.ConfigMap")) ==> gpusharingconfigmap.cmStored(keyOfCM(obj)) == old(gpusharingconfigmap.cmStored(keyOfCM(obj)))
+//@ end
+
+// names of the two ConfigMaps of a fraction container (functions of the pod's runai/shared-gpu-configmap annotation
+// and the container reference): <prefix>-<index> (capabilities) and <prefix>-<index>-evar (direct env vars)
+//@ define capName(pod *v1.Pod, ref *gpusharingconfigmap.PodContainerRef) string = tuple0(gpusharingconfigmap.ExtractCapabilitiesConfigMapName(pod, ref))
+//@ define envName(pod *v1.Pod, ref *gpusharingconfigmap.PodContainerRef) string = tuple0(gpusharingconfigmap.ExtractDirectEnvVarsConfigMapName(pod, ref))
+//@ define capKey(pod *v1.Pod, ref *gpusharingconfigmap.PodContainerRef) string = gpusharingconfigmap.cmKey(pod.Namespace, capName(pod, ref))
+//@ define envKey(pod *v1.Pod, ref *gpusharingconfigmap.PodContainerRef) string = gpusharingconfigmap.cmKey(pod.Namespace, envName(pod, ref))
+
+// Get, change the data in memory, merge-patch: executed by the callers with their own change function
+//@ func UpdateConfigMapEnvironmentVariable
+//@   inline
+//@ end
+
+// C11 "... with its side objects in place (... visible-device and portion settings ...)": success means the capabilities
+// ConfigMap of the fraction container carries the given portion under GPU_PORTION (and the deprecated
+// RUNAI_NUM_OF_GPUS); no other ConfigMap is written; a failure writes nothing.
+//@ func SetGPUPortion
+//@   props C11
+//@   requires kubeClient != nil && pod != nil && containerRef != nil
+//@   modifies family(gpusharingconfigmap.cmStored(""))
+//@   lemma [name-is-the-function] err == nil ==> capabilitiesMapName == capName(pod, containerRef)
+//@   ensures [portion-written-to-the-capabilities-configmap] result == nil ==> gpusharingconfigmap.cmStored(capKey(pod, containerRef)) != nil && gpusharingconfigmap.cmStored(capKey(pod, containerRef)).Data[GPUPortion] == gpuPortionStr && gpusharingconfigmap.cmStored(capKey(pod, containerRef)).Data[NumOfGpusEnvVarBC] == gpuPortionStr
+//@   ensures [failure-writes-nothing] result != nil ==> (forall k string :: gpusharingconfigmap.cmStored(k) == old(gpusharingconfigmap.cmStored(k)))
+//@   ensures [only-the-capabilities-configmap] forall k string :: k != capKey(pod, containerRef) ==> gpusharingconfigmap.cmStored(k) == old(gpusharingconfigmap.cmStored(k))
+//@ end
+
+// visible devices: written to the capabilities ConfigMap when the container's NVIDIA_VISIBLE_DEVICES comes from a
+// ConfigMap key reference (pods mutated by older versions), otherwise to the direct-env-vars ConfigMap.
+//@ func SetNvidiaVisibleDevices
+//@   props C11
+//@   requires kubeClient != nil && pod != nil && containerRef != nil && containerRef.Container != nil
+//@   modifies family(gpusharingconfigmap.cmStored(""))
+//@   loop 1
+//@     invariant -1 <= rangeindex && rangeindex < len(containerRef.Container.Env)
+//@     decreases len(containerRef.Container.Env) - rangeindex
+//@   ensures [visible-devices-written] result == nil ==> gpusharingconfigmap.cmStored(ite(nvidiaVisibleDevicesDefinedInSpec, capKey(pod, containerRef), envKey(pod, containerRef))) != nil && gpusharingconfigmap.cmStored(ite(nvidiaVisibleDevicesDefinedInSpec, capKey(pod, containerRef), envKey(pod, containerRef))).Data[constants.NvidiaVisibleDevices] == visibleDevicesValue
+//@   ensures [failure-writes-nothing] result != nil ==> (forall k string :: gpusharingconfigmap.cmStored(k) == old(gpusharingconfigmap.cmStored(k)))
+//@   ensures [only-the-two-configmaps-of-the-container] forall k string :: k != capKey(pod, containerRef) && k != envKey(pod, containerRef) ==> gpusharingconfigmap.cmStored(k) == old(gpusharingconfigmap.cmStored(k))
+//@ end
